@@ -58,7 +58,15 @@ func (m *TN93Model) computeEigens() (err error) {
 	eigen.VectorsTo(&u)
 	reigenvect := mat.NewDense(4, 4, nil)
 	leigenvect := mat.NewDense(4, 4, nil)
-	reigenvect.Apply(func(i, j int, val float64) float64 { return real(u.At(i, j)) }, reigenvect)
+	// The eigen values of a reversible model are real, but a repeated one may come back, because of
+	// rounding, as a conjugate pair (a+ib, a-ib) with vectors (x+iy, x-iy): x and y are then used
+	cvals := eigen.Values(nil)
+	reigenvect.Apply(func(i, j int, val float64) float64 {
+		if imag(cvals[j]) < 0 && j > 0 {
+			return imag(u.At(i, j-1))
+		}
+		return real(u.At(i, j))
+	}, reigenvect)
 	leigenvect.Inverse(reigenvect)
 
 	m.leigenvect = leigenvect
